@@ -823,6 +823,14 @@ def gen_C10(r):
         for t, d in tasks.items():
             if d["kind"] in ("exp", "cmd"):
                 op["scripts"][t] = [_stream_script(r), _stream_script(r)]
+        if r.random() < 0.12:
+            # the run is interrupted while tasks are writing: what they had written is in their logs
+            scn["knobs"]["mon"] = True
+            op["signal"] = {"sig": r.choice(["INT", "TERM"]), "cp": int(10 ** r.uniform(2.6, 3.7))}
+            for lst in op["scripts"].values():
+                for sc in lst:
+                    if r.random() < 0.5:
+                        sc["term_delay"] = r.choice([1, 2, 4])
         scn["history"].append(op)
     if scn.pop("_inc"):
         S.add_include(r, scn)
